@@ -62,7 +62,22 @@ func setDurationField(field reflect.Value, fieldType reflect.Type, isPtr bool, v
 }
 
 // deserializeParams reads row 0 from a record batch into a Go struct.
-func deserializeParams(batch arrow.RecordBatch, target reflect.Type) (reflect.Value, error) {
+//
+// The batch comes straight off the wire. Its schema is checked below, but the
+// *values* are not, and cannot cheaply be: an embedded ArrowSerializable
+// payload carries its own inner schema, a dictionary index may point past its
+// dictionary, offsets inside a buffer may be inconsistent. Reading such values
+// panics inside reflect or arrow-go. None of the callers runs this under a
+// recover (the handler call is wrapped, parameter decoding is not), so a panic
+// here would leave ServeHTTP / the serve loop. It is reported as a decoding
+// error instead, which every caller already turns into a TypeError response.
+func deserializeParams(batch arrow.RecordBatch, target reflect.Type) (result reflect.Value, err error) {
+	defer func() {
+		if rv := recover(); rv != nil {
+			result = reflect.Value{}
+			err = fmt.Errorf("malformed parameter values: %v", rv)
+		}
+	}()
 	if target.Kind() == reflect.Ptr {
 		target = target.Elem()
 	}
@@ -109,7 +124,15 @@ func deserializeParams(batch arrow.RecordBatch, target reflect.Type) (reflect.Va
 		)
 	}
 
-	result := reflect.New(target).Elem()
+	// Every field below is read from row 0. ReadRequest lets a zero-row batch
+	// through when it carries a pointer key (vgi_rpc.location / shm offset) so
+	// that the caller can resolve it first; a pointer nobody resolved, or an
+	// inner batch that is itself empty, has no row to read.
+	if len(desc.Fields) > 0 && batch.NumRows() < 1 {
+		return reflect.Value{}, fmt.Errorf("parameter batch has %d rows, expected 1", batch.NumRows())
+	}
+
+	result = reflect.New(target).Elem()
 
 	for ord, fd := range desc.Fields {
 		info := fd.Info
